@@ -160,6 +160,9 @@ def _parse_tlc(res, rc):
         res.violation = m.group(1) or "property"
     elif "Error: Deadlock reached" in out:
         res.violation = "Deadlock"
+    elif re.search(r"Error: Temporal propert(y|ies) .*violated", out):
+        mm = re.search(r"Error: Temporal property (\w+) was violated", out)
+        res.violation = mm.group(1) if mm else "temporal property"
     elif "is violated" in out and "Error:" in out:
         mm = re.search(r"Error: (.*) is violated", out)
         res.violation = mm.group(1) if mm else "property"
